@@ -28,7 +28,7 @@ EffectOf(c, o, e, k) ==
   /\ e.dOther = moved /\ e.dTo = (IF o.sameTo THEN moved ELSE 0)
   /\ IF c.pay = "self" THEN e.dS < 0 - moved /\ e.dP = 0 ELSE e.dS = 0 - moved /\ e.dP < 0
   /\ e.dP2 = (IF c.pay = "self" THEN e.dP ELSE 0)
-  /\ IF c.box = "none" THEN e.dW = 0 ELSE e.dW < 0
+  /\ (c.box = "none" => e.dW = 0)                      \* (a box is paid for by its sender, who signed it)
   /\ e.vote = (ExecKind(c) = "vote")
   /\ e.cfg2 = (IF c.kind = "signers" THEN (IF c.f = "data" THEN <<100, 100, 100>> ELSE c.ncfg) ELSE k)
 TReset == /\ Ev("reset")
